@@ -1827,7 +1827,6 @@ func c18Fixtures(c *eng.Ctx) {
 	}
 }
 
-
 // ---------------------------------------------------------------------------------------
 // Added after seeded changes C18-1 / C18-2.
 func c18Extra(c *eng.Ctx) {
